@@ -7,6 +7,7 @@ import (
 	"crypto"
 	"crypto/sha256"
 	"crypto/sha512"
+	"encoding/hex"
 	"sort"
 
 	"github.com/oasisprotocol/curve25519-voi/curve"
@@ -273,6 +274,13 @@ var Ops = map[string]func(){
 		pi, _ := ecvrf.ProveWithAddedRandomness(fixedReader{}, ed25519.NewKeyFromSeed(Cur[:32]), []byte("alpha"))
 		put(pi)
 	},
+	// the peer's value is public, and chosen by the peer: here so that the shared secret of ONE of the secrets (#2)
+	// has whole words of zeros, at the start or at the end. A result check that stops at the first non-zero word
+	// runs longer for that secret than for the others.
+	"x25519.X25519(peer value making secret #2's result start with 8 zero bytes)":  func() { out, _ := x25519.X25519(Cur[:32], peerStruct[0]); put(out) },
+	"x25519.X25519(peer value making secret #2's result start with 24 zero bytes)": func() { out, _ := x25519.X25519(Cur[:32], peerStruct[1]); put(out) },
+	"x25519.X25519(peer value making secret #2's result end with 8 zero bytes)":    func() { out, _ := x25519.X25519(Cur[:32], peerStruct[2]); put(out) },
+	"x25519.X25519(peer value making secret #2's result end with 24 zero bytes)":   func() { out, _ := x25519.X25519(Cur[:32], peerStruct[3]); put(out) },
 	// the entropy stream is the secret: key generation and nonce sampling read it through the caller's io.Reader
 	"Scalar.SetRandom(secret entropy)": func() {
 		s, _ := scalar.New().SetRandom(&secretReader{})
@@ -449,8 +457,27 @@ func Init(big bool) {
 	otherPriv = ed25519.NewKeyFromSeed(bytes.Repeat([]byte{7}, 32))
 	srCtx = sr25519.NewSigningContext([]byte("ctx"))
 	customTable = curve.NewEdwardsBasepointTable(pts[2])
+	// peer values for the structured-result operations: constructed once with ref.X25519Preimage for secret #2 =
+	// SHA-512("b")[:32] (big-integer work is far too slow under valgrind to repeat in every traced process); the
+	// block-counter driver re-checks at start-up that the results have the advertised shape
+	for i, h := range []string{
+		"50585cee50e16885c70b337123de630b68551f28f3927bb126e90ab3964ccf58", // result 0000000000000000e2c708e8...
+		"6680d16af7cb6230b46f8960fa3e0dd8d16a874f338fd3de7a9743c842fa1227", // result 00 x24, 8e813ffc2ebed468
+		"28d16e86f578f53482306b0a86c190a54436fc0da9a2b56690c513f6568f1c52", // result ...a421c057, 00 x8
+		"a15bd463e1b71de64cf1f3085a5bcda4776a438efb506943e7b6b7bd71cd5c02", // result 9f973d303f541c6a, 00 x24
+	} {
+		peerStruct[i], _ = hex.DecodeString(h)
+	}
 	graftInit()
 }
+
+var peerStruct [4][]byte
+
+// PeerStructShapes: for the self-check of the structured peer values: zero byte ranges of X25519(secret #2, peer i).
+var PeerStructShapes = [4][2]int{{0, 8}, {0, 24}, {24, 32}, {8, 32}}
+
+// PeerStruct returns peer value i.
+func PeerStruct(i int) []byte { return peerStruct[i] }
 
 // Get returns the operation by name (table or graft table).
 func Get(name string) (func(), bool) {
